@@ -25,8 +25,10 @@ the previously written one.  (a) It needs `uniseg` on the concatenation of every
 written cells in the hot loop; (b) a CUP only separates the two for terminals that cluster in the
 parser (the embedded emulator); terminals that cluster against the cell left of the cursor
 (ghostty, kitty) join them all the same.  So the condition stays with the application: do not put
-the halves of one cluster into neighbouring cells (the text helpers never do: `Characters` segments
-the whole string).
+the halves of one cluster into neighbouring cells.  `Characters` segments a whole string, so
+`Print`/`Println`/`PrintTruncate` never do; `Wrap` can: it segments each *line segment*, and with the
+line-break state carried across Segments uniseg v0.4.4 returns the two regional indicators of a flag
+that begins a Segment as separate line segments (finding F111c, found by the op-level stream).
 -/
 import VaxisModel.Props.C01Sixel
 import VaxisModel.Lemmas.RenderCluster
